@@ -199,6 +199,8 @@ const (
 	ErrEndifWithoutMatchingIf Error = "$endif without matching $if"
 	// ErrUnknownModifier is the unknown modifier error.
 	ErrUnknownModifier Error = "unknown modifier"
+	// ErrIncludeDepth is the too many nested $include error.
+	ErrIncludeDepth Error = "too many nested $include"
 )
 
 // Error satisfies the error interface.
